@@ -190,6 +190,7 @@ func TestVerifC19(t *testing.T) {
 		add(fmt.Sprintf("ctl-%02x", c), string(rune(c)), "a"+string(rune(c))+"b")
 	}
 	add("quotes", "'", "\"", "\\", "'''", "\"\"\"", "\\\"", "\\\\", "it's", "say \"hi\"", "\\u0041", "\\n", "'\"\\", "a'b\"c\\d\ne")
+	add("percent", "%", "%20", "my%20lib", "100%", "%d", "%!s", "%%", "a%sb", "%v%v")
 	add("del", "\x7f", "a\x7fb")
 	add("latin1", "\u0080", "\u0085", "\u009f", "\u00a0", "\u00e9", "\u00ff", "na\u00efve caf\u00e9")
 	add("bmp", "\u0100", "\u07ff", "\u0800", "\u65e5\u672c\u8a9e", "\ufffd", "\uffff", "\ufffe", "\ud7ff", "\ue000", "\u2028", "\ufeff", "\u200b")
